@@ -128,6 +128,8 @@ pub struct ZooCfg {
     pub raw4: u8,
     pub raw6: u8,
     pub join_groups: bool,
+    /// SLAAC enabled (router solicitations go out, router advertisements are acted upon)
+    pub slaac: bool,
     pub lowpan_contexts: bool,
     /// scripted TCP handshake over IPv6 instead of IPv4 (forced when there is no IPv4 address)
     pub est_v6: bool,
@@ -162,6 +164,7 @@ impl ZooCfg {
             raw4: *rng.pick(&[253u8, 253, 17, 6, 1, 2]),
             raw6: *rng.pick(&[253u8, 253, 17, 6, 58, 0]),
             join_groups: med != Med::Lowpan || rng.chance(2, 3),
+            slaac: rng.chance(1, 3),
             lowpan_contexts: rng.bool(),
             est_v6: rng.bool(),
             dns_v6: rng.bool(),
@@ -475,7 +478,8 @@ impl Zoo {
         let mut c = Config::new(hw);
         c.random_seed = cfg.seed;
         c.pan_id = cfg.pan.map(Ieee802154Pan);
-        // SLAAC stays off: it is not part of the configuration list of C03 (C13 covers it)
+        // one configuration in three runs SLAAC: hostile router advertisements then reach slaac.rs
+        c.slaac = cfg.slaac;
         let mut host = Host::with_config(dev, c, &cfg.addrs(), cfg.t0);
         if cfg.med == Med::Lowpan && cfg.lowpan_contexts {
             let ctxs = host.iface.sixlowpan_address_context_mut();
@@ -1049,29 +1053,7 @@ impl Zoo {
         }
         if let (Some(our4), true) = (cfg.v4(), cfg.med != Med::Lowpan) {
             let (src, dst) = (Addr::V4(PROBE.v4.octets()), Addr::V4(our4.octets()));
-            if cfg.med == Med::Eth {
-                // ARP request, broadcast
-                let mut f = Vec::new();
-                f.extend_from_slice(&[0xff; 6]);
-                f.extend_from_slice(PROBE.mac.as_bytes());
-                f.extend_from_slice(&[0x08, 0x06, 0, 1, 8, 0, 6, 4, 0, 1]);
-                f.extend_from_slice(PROBE.mac.as_bytes());
-                f.extend_from_slice(&PROBE.v4.octets());
-                f.extend_from_slice(&[0; 6]);
-                f.extend_from_slice(&our4.octets());
-                let our_mac = OUR_MAC;
-                let ok = self.probe_round("arp-request", vec![f], &|t: &[u8]| {
-                    t.len() >= 42
-                        && t[0..6] == *PROBE.mac.as_bytes()
-                        && indep::be16(t, 12) == 0x0806
-                        && indep::be16(t, 20) == 2
-                        && t[22..28] == *our_mac.as_bytes()
-                        && t[28..32] == our4.octets()
-                        && t[32..38] == *PROBE.mac.as_bytes()
-                        && t[38..42] == PROBE.v4.octets()
-                })?;
-                answered += ok;
-            }
+            answered += self.probe_arp(our4)?;
             let seq = self.next_seq();
             let mut icmp = vec![8u8, 0, 0, 0, 0x77, 0x77, (seq >> 8) as u8, seq as u8];
             icmp.extend_from_slice(&token);
@@ -1102,6 +1084,135 @@ impl Zoo {
         if let Some(our6) = cfg.v6().first().copied() {
             let p6 = cfg.peer6_for(&PROBE, our6);
             let (src, dst) = (Addr::V6(p6.octets()), Addr::V6(our6.octets()));
+            answered += self.probe_ns(our6, ck)?;
+            let seq = self.next_seq();
+            let mut icmp = vec![128u8, 0, 0, 0, 0x77, 0x77, (seq >> 8) as u8, seq as u8];
+            icmp.extend_from_slice(&token);
+            cksum::transport_fill(&src, &dst, 58, &mut icmp, 2);
+            let pkt = indep::ip::build(&src, &dst, 58, 64, &icmp);
+            let frames = crate::gen::frames::link_wrap_plain(&cfg, &PROBE, &pkt);
+            let ok = self.probe_round("icmpv6-echo", frames, &|t: &[u8]| {
+                if t.len() < 24 {
+                    return false;
+                }
+                let m = &t[t.len() - 24..];
+                m[0] == 129 && m[1] == 0 && m[4..6] == [0x77, 0x77] && indep::be16(m, 6) == seq && m[8..] == token && (!ck || cksum::transport_verifies(&dst, &src, 58, m))
+            })?;
+            answered += ok;
+        }
+        // ---- the same requests, fragmented.  Reassembly state left behind by the sequence may
+        // legitimately occupy every slot until it times out (60 s), so the clock is moved past
+        // that first; from then on a fragmented request is a well-formed request like any other.
+        self.now += 65_000_000;
+        let idle = Ev { at: self.now, frames: vec![], mode: PollMode::Poll, label: "probe:idle-65s".into() };
+        match self.step(idle) {
+            Ok(_) => {}
+            Err(StepFail::Panic(p)) => return Err((semantic_sig(&p), format!("panic in the idle poll before the fragmented probe at {}:{}: {}", p.file, p.line, p.msg))),
+            Err(StepFail::TxStorm(n)) => return Err((format!("no-return:{}:tx-cap", self.cfg.med.name()), format!("{} frames in one poll before the fragmented probe", n))),
+        }
+        if let (Some(our4), true) = (cfg.v4(), cfg.med != Med::Lowpan) {
+            let (src, dst) = (Addr::V4(PROBE.v4.octets()), Addr::V4(our4.octets()));
+            if cfg.med == Med::Eth {
+                // after 65 s of silence the probe's neighbor entry may have expired or been evicted;
+                // a reply to an unknown neighbor is legitimately replaced by a discovery request
+                answered += self.probe_arp(our4)?;
+            }
+            let seq = self.next_seq();
+            let mut icmp = vec![8u8, 0, 0, 0, 0x77, 0x78, (seq >> 8) as u8, seq as u8];
+            icmp.extend_from_slice(&token);
+            let c = cksum::checksum(&[&icmp]);
+            indep::put16(&mut icmp, 2, c);
+            let whole = indep::ip::build_v4(&PROBE.v4.octets(), &our4.octets(), 1, 64, 0x7000 | seq, false, false, 0, &icmp);
+            let mut frames = Vec::new();
+            // second fragment first: the stack has to hold it until the first one arrives
+            for (off, mf, part) in [(8usize, false, &whole[28..]), (0usize, true, &whole[20..28])] {
+                let f = indep::ip::build_v4(&PROBE.v4.octets(), &our4.octets(), 1, 64, 0x7000 | seq, false, mf, off, part);
+                frames.extend(crate::gen::frames::link_wrap_plain(&cfg, &PROBE, &f));
+            }
+            let med = cfg.med;
+            let ok = self.probe_round("icmpv4-echo-fragmented", frames, &|t: &[u8]| {
+                let p = match med {
+                    Med::Eth => {
+                        if t.len() < 14 || t[0..6] != *PROBE.mac.as_bytes() || indep::be16(t, 12) != 0x0800 {
+                            return false;
+                        }
+                        &t[14..]
+                    }
+                    _ => t,
+                };
+                let Ok(info) = indep::ip::parse(p, true) else { return false };
+                if info.proto != 1 || info.src != dst || info.dst != src || info.frag_offset != 0 || info.more_frags {
+                    return false;
+                }
+                let m = &p[info.payload_off..info.payload_off + info.payload_len];
+                m.len() == 24 && m[0] == 0 && m[1] == 0 && (!ck || (cksum::verifies(&[m]) && info.v4_header_ok)) && m[4..6] == [0x77, 0x78] && indep::be16(m, 6) == seq && m[8..] == token
+            })?;
+            answered += ok;
+        }
+        if let (Some(our6), true) = (cfg.v6().first().copied(), cfg.med == Med::Lowpan) {
+            let p6 = cfg.peer6_for(&PROBE, our6);
+            let (src, dst) = (Addr::V6(p6.octets()), Addr::V6(our6.octets()));
+            answered += self.probe_ns(our6, ck)?;
+            let seq = self.next_seq();
+            let mut icmp = vec![128u8, 0, 0, 0, 0x77, 0x78, (seq >> 8) as u8, seq as u8];
+            icmp.extend_from_slice(&token);
+            cksum::transport_fill(&src, &dst, 58, &mut icmp, 2);
+            let pkt = indep::ip::build(&src, &dst, 58, 64, &icmp);
+            let mut o = crate::gen::frames::LpOpts::plain(&cfg);
+            o.force_frag = true;
+            o.tag = 0x7000 | seq;
+            let frames = crate::gen::frames::link_wrap(&cfg, &PROBE, &pkt, &o);
+            if frames.len() >= 2 {
+                let ok = self.probe_round("icmpv6-echo-fragmented", frames, &|t: &[u8]| {
+                    if t.len() < 24 {
+                        return false;
+                    }
+                    let m = &t[t.len() - 24..];
+                    m[0] == 129 && m[1] == 0 && m[4..6] == [0x77, 0x78] && indep::be16(m, 6) == seq && m[8..] == token && (!ck || cksum::transport_verifies(&dst, &src, 58, m))
+                })?;
+                answered += ok;
+            }
+        }
+        Ok(answered)
+    }
+
+    /// ARP request from the probe identity (Ethernet): must be answered; it also (re)introduces the
+    /// probe's hardware address, like any host does before it talks after a long silence.
+    fn probe_arp(&mut self, our4: Ipv4Address) -> Result<u32, (String, String)> {
+        let cfg = self.cfg.clone();
+        let mut answered = 0;
+            if cfg.med == Med::Eth {
+                // ARP request, broadcast
+                let mut f = Vec::new();
+                f.extend_from_slice(&[0xff; 6]);
+                f.extend_from_slice(PROBE.mac.as_bytes());
+                f.extend_from_slice(&[0x08, 0x06, 0, 1, 8, 0, 6, 4, 0, 1]);
+                f.extend_from_slice(PROBE.mac.as_bytes());
+                f.extend_from_slice(&PROBE.v4.octets());
+                f.extend_from_slice(&[0; 6]);
+                f.extend_from_slice(&our4.octets());
+                let our_mac = OUR_MAC;
+                let ok = self.probe_round("arp-request", vec![f], &|t: &[u8]| {
+                    t.len() >= 42
+                        && t[0..6] == *PROBE.mac.as_bytes()
+                        && indep::be16(t, 12) == 0x0806
+                        && indep::be16(t, 20) == 2
+                        && t[22..28] == *our_mac.as_bytes()
+                        && t[28..32] == our4.octets()
+                        && t[32..38] == *PROBE.mac.as_bytes()
+                        && t[38..42] == PROBE.v4.octets()
+                })?;
+                answered += ok;
+            }
+        Ok(answered)
+    }
+
+    /// Neighbor solicitation with source link-layer address option from the probe identity.
+    fn probe_ns(&mut self, our6: Ipv6Address, ck: bool) -> Result<u32, (String, String)> {
+        let cfg = self.cfg.clone();
+        let mut answered = 0;
+        let p6 = cfg.peer6_for(&PROBE, our6);
+        let (src, dst) = (Addr::V6(p6.octets()), Addr::V6(our6.octets()));
             if cfg.med != Med::Ip {
                 // neighbour solicitation with source link-layer address option, to the solicited-node group
                 let o = our6.octets();
@@ -1139,88 +1250,6 @@ impl Zoo {
                 })?;
                 answered += ok;
             }
-            let seq = self.next_seq();
-            let mut icmp = vec![128u8, 0, 0, 0, 0x77, 0x77, (seq >> 8) as u8, seq as u8];
-            icmp.extend_from_slice(&token);
-            cksum::transport_fill(&src, &dst, 58, &mut icmp, 2);
-            let pkt = indep::ip::build(&src, &dst, 58, 64, &icmp);
-            let frames = crate::gen::frames::link_wrap_plain(&cfg, &PROBE, &pkt);
-            let ok = self.probe_round("icmpv6-echo", frames, &|t: &[u8]| {
-                if t.len() < 24 {
-                    return false;
-                }
-                let m = &t[t.len() - 24..];
-                m[0] == 129 && m[1] == 0 && m[4..6] == [0x77, 0x77] && indep::be16(m, 6) == seq && m[8..] == token && (!ck || cksum::transport_verifies(&dst, &src, 58, m))
-            })?;
-            answered += ok;
-        }
-        // ---- the same requests, fragmented.  Reassembly state left behind by the sequence may
-        // legitimately occupy every slot until it times out (60 s), so the clock is moved past
-        // that first; from then on a fragmented request is a well-formed request like any other.
-        self.now += 65_000_000;
-        let idle = Ev { at: self.now, frames: vec![], mode: PollMode::Poll, label: "probe:idle-65s".into() };
-        match self.step(idle) {
-            Ok(_) => {}
-            Err(StepFail::Panic(p)) => return Err((semantic_sig(&p), format!("panic in the idle poll before the fragmented probe at {}:{}: {}", p.file, p.line, p.msg))),
-            Err(StepFail::TxStorm(n)) => return Err((format!("no-return:{}:tx-cap", self.cfg.med.name()), format!("{} frames in one poll before the fragmented probe", n))),
-        }
-        if let (Some(our4), true) = (cfg.v4(), cfg.med != Med::Lowpan) {
-            let (src, dst) = (Addr::V4(PROBE.v4.octets()), Addr::V4(our4.octets()));
-            let seq = self.next_seq();
-            let mut icmp = vec![8u8, 0, 0, 0, 0x77, 0x78, (seq >> 8) as u8, seq as u8];
-            icmp.extend_from_slice(&token);
-            let c = cksum::checksum(&[&icmp]);
-            indep::put16(&mut icmp, 2, c);
-            let whole = indep::ip::build_v4(&PROBE.v4.octets(), &our4.octets(), 1, 64, 0x7000 | seq, false, false, 0, &icmp);
-            let mut frames = Vec::new();
-            // second fragment first: the stack has to hold it until the first one arrives
-            for (off, mf, part) in [(8usize, false, &whole[28..]), (0usize, true, &whole[20..28])] {
-                let f = indep::ip::build_v4(&PROBE.v4.octets(), &our4.octets(), 1, 64, 0x7000 | seq, false, mf, off, part);
-                frames.extend(crate::gen::frames::link_wrap_plain(&cfg, &PROBE, &f));
-            }
-            let med = cfg.med;
-            let ok = self.probe_round("icmpv4-echo-fragmented", frames, &|t: &[u8]| {
-                let p = match med {
-                    Med::Eth => {
-                        if t.len() < 14 || t[0..6] != *PROBE.mac.as_bytes() || indep::be16(t, 12) != 0x0800 {
-                            return false;
-                        }
-                        &t[14..]
-                    }
-                    _ => t,
-                };
-                let Ok(info) = indep::ip::parse(p, true) else { return false };
-                if info.proto != 1 || info.src != dst || info.dst != src || info.frag_offset != 0 || info.more_frags {
-                    return false;
-                }
-                let m = &p[info.payload_off..info.payload_off + info.payload_len];
-                m.len() == 24 && m[0] == 0 && m[1] == 0 && (!ck || (cksum::verifies(&[m]) && info.v4_header_ok)) && m[4..6] == [0x77, 0x78] && indep::be16(m, 6) == seq && m[8..] == token
-            })?;
-            answered += ok;
-        }
-        if let (Some(our6), true) = (cfg.v6().first().copied(), cfg.med == Med::Lowpan) {
-            let p6 = cfg.peer6_for(&PROBE, our6);
-            let (src, dst) = (Addr::V6(p6.octets()), Addr::V6(our6.octets()));
-            let seq = self.next_seq();
-            let mut icmp = vec![128u8, 0, 0, 0, 0x77, 0x78, (seq >> 8) as u8, seq as u8];
-            icmp.extend_from_slice(&token);
-            cksum::transport_fill(&src, &dst, 58, &mut icmp, 2);
-            let pkt = indep::ip::build(&src, &dst, 58, 64, &icmp);
-            let mut o = crate::gen::frames::LpOpts::plain(&cfg);
-            o.force_frag = true;
-            o.tag = 0x7000 | seq;
-            let frames = crate::gen::frames::link_wrap(&cfg, &PROBE, &pkt, &o);
-            if frames.len() >= 2 {
-                let ok = self.probe_round("icmpv6-echo-fragmented", frames, &|t: &[u8]| {
-                    if t.len() < 24 {
-                        return false;
-                    }
-                    let m = &t[t.len() - 24..];
-                    m[0] == 129 && m[1] == 0 && m[4..6] == [0x77, 0x78] && indep::be16(m, 6) == seq && m[8..] == token && (!ck || cksum::transport_verifies(&dst, &src, 58, m))
-                })?;
-                answered += ok;
-            }
-        }
         Ok(answered)
     }
 
